@@ -7,6 +7,25 @@ VERIF = os.path.dirname(os.path.dirname(os.path.abspath(__file__)))
 
 CHECKS = {
     # id: (technique, level text, level note)
+    "C01": (
+        "PBT over (scenario, action/reset sequence): step/reset contract invariants after every call",
+        "Generated and shipped scenarios are wrapped in PrimaiteGymEnv and driven with generated sequences of steps over the "
+        "whole action space (ignoring the mask, incl. missing/powered-off targets), seeded and unseeded resets and up to 3 "
+        "steps past truncation; after every call the 5-tuple contract, tick count, per-agent history length/timestep/"
+        "status, info['agent_actions'] and the post-reset zero state are asserted; any exception is a violation. "
+        "Exploration: sampled scenarios and histories.",
+        "Scenario families are LAN/ROUTED/DMZ with <=6 hosts; shipped files with exactly one proxy agent; malformed "
+        "shipped files are deny-listed with reasons in vlib/envdrive.py.",
+    ),
+    "C02": (
+        "PBT over (observation config, history): gymnasium Space.contains on every observation, space equality across episodes",
+        "Same driver as C01 with observation configurations generated along every axis; after every reset/step the nested "
+        "observation is located leaf-by-leaf in the nested space (first offending leaf is the signature), the returned "
+        "observation is checked against env.observation_space (flattened or not) and spaces are compared between episodes. "
+        "Exploration.",
+        "gymnasium's contains/flatten are trusted; reachable counts are limited by what the generated histories produce "
+        "(the component layer adds synthetic states).",
+    ),
     "C15": (
         "stateful PBT: generated file-system request/action sequences vs structural invariants + name model; "
         "bounded-exhaustive over a 14-symbol alphabet",
